@@ -70,6 +70,12 @@ var c13writes = []c13write{
 	{"hset", func(k string, v []byte) []string { return []string{"hset", k, "f", string(v)} }, []int{3}},
 	{"hsetnx", func(k string, v []byte) []string { return []string{"hsetnx", k, "f", string(v)} }, []int{3}},
 	{"hmset", func(k string, v []byte) []string { return []string{"hmset", k, "f", string(v), "g", string(v) + "2"} }, []int{3, 5}},
+	// several values of which the last one never shrinks (short / incompressible)
+	{"hmset", func(k string, v []byte) []string { return []string{"hmset", k, "f", string(v), "g", "s"} }, []int{3, 5}},
+	{"hmset", func(k string, v []byte) []string {
+		return []string{"hmset", k, "f", string(v), "g", string(c13pattern("rnd", 40))}
+	}, []int{3, 5}},
+	{"hset", func(k string, v []byte) []string { return []string{"hset", k, "f", string(v), "g", "s"} }, []int{3, 5}},
 }
 
 // c13stored checks what reaches the backend for one original value.
